@@ -15,15 +15,16 @@
                    `null` where no field has that index; fields behind the last non-nil one are
                    left out; [] when every field is nil;   (encode.rs encode_fields / decode.rs
                    gen_statements; nil = Option::None)
-        enum     = array(2) [variant index, fields encoded like a struct]; a unit variant has
-                   array(0) as payload and the decoder skips one item for it;
+        enum     = array(2) [variant index, fields encoded like a struct except that no field
+                   is ever left out]; a unit variant has array(0) as payload and the decoder
+                   skips one item for it;
         transparent struct = its only field;
         Option   = null | the value;  Vec = array(n) items;  maps = map(n) key value ...;
         tuples   = array(k) items;  PhantomData = array(0);
         custom codecs: looked up BY NAME PAIR in [codec_table]; a pair that is not in the
         table makes [wf_schema] false and the decoder fail.
    Decoding errors are [None]; nothing here can panic. *)
-From Coq Require Import String.
+From Coq Require Import String Ascii.
 From Coq Require Import List Arith ZArith NArith Bool.
 Import ListNotations.
 Local Open Scope nat_scope.
@@ -159,6 +160,17 @@ Definition skip1 (ts : list tok) : option (list tok) := skip_items (S (length ts
 Definition wellformed_items (n : nat) (ts : list tok) : bool :=
   match skip_items (S (length ts)) n ts with Some [] => true | _ => false end.
 
+(* identifiers: lists of characters (Coq's [string] is avoided in everything that is extracted;
+   [i_] is only used under [Eval vm_compute], so no string survives in a definition) *)
+Definition ident : Type := list ascii.
+Fixpoint ident_eqb (a b : ident) {struct a} : bool :=
+  match a, b with
+  | [], [] => true
+  | x :: a', y :: b' => Ascii.eqb x y && ident_eqb a' b'
+  | _, _ => false
+  end.
+Definition i_ (s : string) : ident := list_ascii_of_string s.
+
 (* ------------------------------------------------------------------ *)
 (* 2. schema                                                            *)
 
@@ -170,18 +182,18 @@ Inductive ty : Type :=
 | TVec (t : ty)
 | TMapT (k v : ty)
 | TTup (l : list ty)
-| TRef (name : string)
-| TOpaque (name : string).   (* a type the derive never looks into: only under a custom codec *)
+| TRef (name : ident)
+| TOpaque (name : ident).   (* a type the derive never looks into: only under a custom codec *)
 
 Record field : Type := mkField {
-  f_name : string;
+  f_name : ident;
   f_idx : option nat;                 (* None = #[cbor(skip)] *)
   f_ty : ty;
-  f_codec : option (string * string)  (* encode_with, decode_with *)
+  f_codec : option (ident * ident)  (* encode_with, decode_with *)
 }.
 
 Record variant : Type := mkVariant {
-  v_name : string;
+  v_name : ident;
   v_idx : nat;
   v_unit : bool;                      (* unit variant: no field list at all *)
   v_fields : list field
@@ -191,7 +203,7 @@ Inductive item : Type :=
 | IStruct (transparent : bool) (fs : list field)
 | IEnum (vs : list variant).
 
-Definition schema : Type := list (string * item).
+Definition schema : Type := list (ident * item).
 
 (* untyped value trees *)
 Inductive value : Type :=
@@ -221,16 +233,16 @@ Inductive codec : Type :=
    - datetime: the RFC 3339 text (chrono's print/parse round trip is trusted);
    - serialize_mode: transient flag of the JSON serialiser; one null on the wire; a loaded
      store is at rest, i.e. AllowInclude (modelled as [VB true]), like a fresh Config. *)
-Definition codec_table : list (string * string * codec) :=
-  [ ("cbor_encode_positionitem_smallvec"%string, "cbor_decode_positionitem_smallvec"%string,
+Definition codec_table : list (ident * ident * codec) := Eval vm_compute in
+  [ (i_ "cbor_encode_positionitem_smallvec", i_ "cbor_decode_positionitem_smallvec",
      CAs (TVec (TTup [TP PU64; TP PU32])));
-    ("cbor_encode_datetime"%string, "cbor_decode_datetime"%string, CAs (TP PStr));
-    ("cbor_encode_serialize_mode"%string, "cbor_decode_serialize_mode"%string, CConstNull (VB true)) ].
+    (i_ "cbor_encode_datetime", i_ "cbor_decode_datetime", CAs (TP PStr));
+    (i_ "cbor_encode_serialize_mode", i_ "cbor_decode_serialize_mode", CConstNull (VB true)) ].
 
-Fixpoint lookup_codec_in (tbl : list (string * string * codec)) (e d : string) : option codec :=
+Fixpoint lookup_codec_in (tbl : list (ident * ident * codec)) (e d : ident) : option codec :=
   match tbl with
   | [] => None
-  | (e', d', c) :: r => if String.eqb e e' && String.eqb d d' then Some c else lookup_codec_in r e d
+  | (e', d', c) :: r => if ident_eqb e e' && ident_eqb d d' then Some c else lookup_codec_in r e d
   end.
 Definition lookup_codec := lookup_codec_in codec_table.
 
@@ -257,6 +269,12 @@ Definition isnil (f : field) (v : value) : bool :=
   | None => is_none v
   | Some _ => is_opt (f_ty f) && is_none v
   end.
+
+(* Inside an enum variant the derive binds the fields by pattern (`Enum::Var(a, b) =>`), so the
+   nil test is applied to a `&&Option<T>`, i.e. to the blanket `impl Encode for &T`, which does
+   not forward is_nil: no field of a variant is ever left out (found by the byte comparison with
+   real files: AnnotationSelector(h, None) is written as [h, null], not [h]). *)
+Definition no_nils (l : list value) : list bool := map (fun _ => false) l.
 
 Definition default_prim (p : prim) : value :=
   match p with
@@ -461,10 +479,10 @@ Fixpoint all2 {A B : Type} (f : A -> B -> bool) (la : list A) (lb : list B) {str
 Section WithSchema.
 Variable Sc : schema.
 
-Fixpoint lookup_in (s : schema) (name : string) : option item :=
+Fixpoint lookup_in (s : schema) (name : ident) : option item :=
   match s with
   | [] => None
-  | (n, it) :: r => if String.eqb n name then Some it else lookup_in r name
+  | (n, it) :: r => if ident_eqb n name then Some it else lookup_in r name
   end.
 Definition lookup := lookup_in Sc.
 
@@ -530,7 +548,7 @@ Fixpoint enc (t : ty) (v : value) {struct v} : list tok :=
               match nth_error vs k with
               | Some vr =>
                   TArr 2 :: TUInt (N.of_nat (v_idx vr)) ::
-                  enc_rec (v_fields vr) (encs (v_fields vr) l) (zipw isnil (v_fields vr) l)
+                  enc_rec (v_fields vr) (encs (v_fields vr) l) (no_nils l)
               | None => []
               end
           | _ => []
@@ -865,7 +883,7 @@ Fixpoint nn (fuel : nat) (t : ty) : bool :=
       end
   end.
 
-Definition defined (name : string) : bool :=
+Definition defined (name : ident) : bool :=
   match lookup name with Some _ => true | None => false end.
 
 Fixpoint ty_wf (t : ty) : bool :=
@@ -905,10 +923,10 @@ Fixpoint nodup_nat (l : list nat) : bool :=
   | [] => true
   | x :: r => negb (existsb (Nat.eqb x) r) && nodup_nat r
   end.
-Fixpoint nodup_str (l : list string) : bool :=
+Fixpoint nodup_str (l : list ident) : bool :=
   match l with
   | [] => true
-  | x :: r => negb (existsb (String.eqb x) r) && nodup_str r
+  | x :: r => negb (existsb (ident_eqb x) r) && nodup_str r
   end.
 
 Fixpoint idxs (fs : list field) : list nat :=
@@ -951,12 +969,12 @@ Fixpoint vdepth (v : value) : nat :=
 End WithSchema.
 
 (* every (item, field) that is skipped or replaced by a constant on reload *)
-Definition erased_fields_of (fs : list field) : list string :=
+Definition erased_fields_of (fs : list field) : list ident :=
   flat_map (fun f => match f_idx f with
                      | None => [f_name f]
                      | Some _ => match fkind_of f with FK_const _ => [f_name f] | _ => [] end
                      end) fs.
-Definition erased_fields (S : schema) : list (string * string) :=
+Definition erased_fields (S : schema) : list (ident * ident) :=
   flat_map (fun e =>
               match snd e with
               | IStruct _ fs => map (fun n => (fst e, n)) (erased_fields_of fs)
@@ -964,9 +982,9 @@ Definition erased_fields (S : schema) : list (string * string) :=
               end) S.
 
 (* every custom codec pair a schema uses *)
-Definition codecs_of (fs : list field) : list (string * string) :=
+Definition codecs_of (fs : list field) : list (ident * ident) :=
   flat_map (fun f => match f_codec f with Some p => [p] | None => [] end) fs.
-Definition codecs_used (S : schema) : list (string * string) :=
+Definition codecs_used (S : schema) : list (ident * ident) :=
   flat_map (fun e =>
               match snd e with
               | IStruct _ fs => codecs_of fs
